@@ -264,8 +264,12 @@ func specStream(c streamCase, limit int, ser serialize.Serializer) streamObs {
 				o.Delivered = append(o.Delivered, describe(m))
 			}
 		case 1:
+			if avail < it.Len {
+				off = total // nothing is answered before the whole PING payload is there
+				continue
+			}
 			w = append(w, 2, byte(it.Len>>16), byte(it.Len>>8), byte(it.Len))
-			w = append(w, pl[:avail]...)
+			w = append(w, pl[:it.Len]...)
 		case 2:
 		default:
 			o.Closed = true
